@@ -20,6 +20,7 @@ import inspect
 import io
 import contextlib
 import os
+import datetime
 import numpy as np
 
 import dataiter as di
@@ -369,6 +370,7 @@ def shards(tier):
     for kind in VKINDS:
         for r in rows:
             out.append({"part": "vec", "kind": kind, "rows": r})
+    out.append({"part": "pylist"})
     depth = 2 if tier == "quick" else 3
     for init in range(len(dfbfs.INITS)):
         out.append({"part": "bfs", "init": init, "prefix": [], "depth": 1})
@@ -432,7 +434,74 @@ def run_call(rec, what, label, build, fn, case):
     rec.outcome((what, label, len(outs)))
 
 
+PYLISTS = [
+    [1, 2, None], [None, 1.5], [float("nan"), 2.5, None], ["a", None, "b"], [True, None], [None, None],
+    [datetime.date(2020, 2, 29), None], [datetime.datetime(2020, 2, 29, 12, 0), None, None], [1, None, "a"], [],
+]
+PYLIST_CALLS = ["Vector", "DataFrameColumn", "DataFrame", "modify", "setitem", "update", "cbind", "ListOfDicts.to_data_frame"]
+
+
+def pylist_repr(lst):
+    # identity-free description of a plain Python list (NaN by name: nan != nan)
+    return repr([("nan" if isinstance(x, float) and x != x else x) for x in lst])
+
+
+def check_pylist(case, rec):
+    """A caller's own Python LIST handed to a constructor or method is an argument like any other: it is unchanged
+    afterwards (its None / NaN items are not rewritten in place) and a later edit of it is not seen by the result."""
+    lst = list(PYLISTS[case["list"]])
+    call = case["call"]
+    before = pylist_repr(lst)
+    rec.state(("pylist", before))
+    rec.case(("pylist", call, before), any(x is None for x in lst))
+    rec.trans()
+    n = len(lst)
+    base = di.DataFrame(k=list(range(n)))
+    try:
+        if call == "Vector":
+            out = di.Vector(lst)
+        elif call == "DataFrameColumn":
+            out = di.DataFrameColumn(lst)
+        elif call == "DataFrame":
+            out = di.DataFrame(x=lst)
+        elif call == "modify":
+            out = base.modify(x=lst)
+        elif call == "setitem":
+            out = base.copy()
+            out["x"] = lst
+        elif call == "update":
+            out = base.update(di.DataFrame(x=lst)) if n else base
+        elif call == "cbind":
+            out = base.cbind(di.DataFrame(x=lst)) if n else base
+        else:
+            items = [{"x": v} for v in lst]
+            snap_items = repr([pylist_repr(list(i.values())) for i in items])
+            out = di.ListOfDicts(items).to_data_frame() if n else base
+            if repr([pylist_repr(list(i.values())) for i in items]) != snap_items:
+                rec.violation("ListOfDicts", "argument-changed", case, "the dicts handed to ListOfDicts were changed")
+                return
+    except Exception as e:
+        rec.count("calls_raised")
+        rec.outcome((call, "raised", type(e).__name__))
+        out = None
+    after = pylist_repr(lst)
+    if after != before:
+        rec.violation(call, "argument-changed", case, f"the caller's list {before} is {after} after the call")
+        return
+    if out is not None:
+        arrs = arrays_of(out) if not isinstance(out, np.ndarray) else [np.asarray(out)]
+        s0 = [snap_array(a) for a in arrs]
+        for i in range(len(lst)):
+            lst[i] = "scribbled"
+        if [snap_array(a) for a in arrs] != s0:
+            rec.violation(call, "write-through-operand", case, "an edit of the caller's list afterwards was observed on the result")
+            return
+    rec.outcome((call, after))
+
+
 def check_case(case, rec):
+    if case.get("part") == "pylist":
+        return check_pylist(case, rec)
     if case.get("part") == "df":
         menu = df_menu()[case["method"]]
         label, fn, nargs = next(x for x in menu if x[0] == case["label"])
@@ -467,6 +536,12 @@ def check_case(case, rec):
 
 
 def run_shard(shard, rec):
+    if shard["part"] == "pylist":
+        for i in range(len(PYLISTS)):
+            for call in PYLIST_CALLS:
+                check_case({"part": "pylist", "list": i, "call": call}, rec)
+        rec.sample({"part": "pylist", "lists": len(PYLISTS), "calls": PYLIST_CALLS})
+        return
     if shard["part"] == "df":
         for label, fn, nargs in df_menu()[shard["method"]]:
             check_case({"part": "df", "method": shard["method"], "label": label, "rows": shard["rows"]}, rec)
